@@ -68,6 +68,9 @@ def check_lafem_transfer(ck, facts):
         fns = [f for f in facts.functions if f.cls == cls and f.tk != "pattern"]
         ckey = clskey(fns[0])
         okf = all(k in fields and len(fields[k]) == 1 for k in KINDS) and len({next(iter(fields[k])) for k in KINDS if k in fields}) == 3
+        if not all(k in fields for k in KINDS):
+            ck.incomplete("E1.transfer-accessors", "%s: accessor get_mat_%s does not return a member directly (shape not recognised)" % (ckey, "/".join(k for k in KINDS if k not in fields)))
+            continue
         ck.ob("E1.transfer-accessors", ckey, okf,
               "get_mat_prol/rest/trunc (const and non-const) return three distinct fields: %s" % {k: sorted(v) for k, v in fields.items()},
               fns[0].file, fns[0].line)
@@ -93,16 +96,21 @@ def check_lafem_transfer(ck, facts):
             d_out, d_in = f.params[out_pos]["d"], f.params[1 - out_pos]["d"]
             applies = []
             other_writes = []
+            p_out, p_in = dfl.Path((("param", d_out),)), dfl.Path((("param", d_in),))
             for c in stmt_calls(f):
-                if c.get("noreturn") or c.get("callee") in ("FEAT::assertion",):
+                if c.get("noreturn") or c.get("callee") in ("FEAT::assertion",) or c.get("callee") in dfl.MOVE_FNS:
                     continue
-                touches_out = any(x.get("k") == "Ref" and x.get("d") == d_out for a in c.get("a", []) for x in walk(a))
+                touches_out = any(pt_ is not None and is_nonconst_ref(pt_) and rs.path(a).startswith(p_out) for a, pn_, pt_ in dfl.call_args_with_params(c, f))
                 if c.get("k") == "MCall" and callee_name(c) == "apply":
                     applies.append(c)
                 elif touches_out:
                     other_writes.append(c)
             detail = []
             ok = sig_ok
+            if other_writes or (not applies and any(is_call(c) and not c.get("noreturn") and c.get("callee") != "FEAT::assertion" for c in stmt_calls(f))):
+                # the result may be produced by a helper / another callee that this rule does not model
+                ck.incomplete("E1.transfer-apply", "%s: result vector handled by %s, which is not modelled" % (key, ", ".join(render(c)[:60] for c in (other_writes or stmt_calls(f)[:2]))))
+                continue
             if not sig_ok:
                 detail.append("parameter %d must be the (non-const) result and parameter %d the const input" % (out_pos, 1 - out_pos))
             if len(applies) != 1:
@@ -122,15 +130,16 @@ def check_lafem_transfer(ck, facts):
                     ok = False
                     detail.append("apply is not the 2-operand form r <- A*x")
                 else:
-                    if not (a_r.get("k") == "Ref" and a_r.get("d") == d_out):
+                    if rs.path(a_r) != p_out:
                         ok = False
                         detail.append("result operand r is %s, expected parameter %d" % (render(a_r), out_pos))
-                    if not (a_x.get("k") == "Ref" and a_x.get("d") == d_in):
-                        ok = False
-                        detail.append("input operand x is %s, expected parameter %d" % (render(a_x), 1 - out_pos))
-            if other_writes:
-                ok = False
-                detail.append("result vector also passed to %s" % ", ".join(render(c)[:60] for c in other_writes))
+                    if rs.path(a_x) != p_in:
+                        if rs.path(a_x) == p_out or kind_of_field.get((rs.path(a_x).steps[1:2] or [("", "")])[0][1]) or rs.path(a_x).steps[:1] == (("param", d_in),):
+                            ok = False
+                            detail.append("input operand x is %s, expected parameter %d" % (render(a_x), 1 - out_pos))
+                        else:
+                            ck.incomplete("E1.transfer-apply", "%s: input operand %s of the apply is not the input parameter itself (derived value not modelled)" % (key, render(a_x)))
+                            continue
             cfg = f.cfg
             if cfg is not None and applies:
                 aid = applies[0]["i"]
@@ -183,8 +192,30 @@ def check_lafem_transfer(ck, facts):
                             got = [x["n"] for x in walk(rhs) if x.get("k") == "Member" and x.get("n") in kind_of_field]
                             pairs.append((kind_of_field[lhs["n"]], kind_of_field[got[0]] if len(got) == 1 else "?"))
                 if pairs:
+                    if any(p[1] == "?" for p in pairs) or len(pairs) != 3:
+                        ck.incomplete("E1.transfer-triple", "%s: source of a member assignment not recognised (%s)" % (key, pairs))
+                        continue
                     bad = [p for p in pairs if p[0] != p[1]]
-                    ck.ob("E1.transfer-triple", key, not bad and len(pairs) == 3, "field <- source kinds %s" % pairs, f.file, f.line)
+                    ck.ob("E1.transfer-triple", key, not bad, "field <- source kinds %s" % pairs, f.file, f.line)
+            elif f.name == "convert" and len(f.params) == 1:
+                pairs = []
+                od = f.params[0]["d"]
+                for c in stmt_calls(f):
+                    if c.get("k") == "MCall" and callee_name(c) == "convert" and (c.get("obj") or {}).get("k") == "Member" and c["obj"].get("n") in kind_of_field and len(c.get("a", [])) == 1:
+                        a0 = c["a"][0]
+                        got = "?"
+                        if a0.get("k") == "MCall" and callee_name(a0) in ACCESSOR and (a0.get("obj") or {}).get("k") == "Ref" and a0["obj"].get("d") == od:
+                            got = ACCESSOR[callee_name(a0)]
+                        elif a0.get("k") == "Member" and a0.get("n") in kind_of_field and (a0.get("b") or {}).get("d") == od:
+                            got = kind_of_field[a0["n"]]
+                        pairs.append((kind_of_field[c["obj"]["n"]], got))
+                if pairs:
+                    key = "%s::convert" % ckey
+                    if any(p_[1] == "?" for p_ in pairs):
+                        ck.incomplete("E1.transfer-triple", "%s: source of a member conversion not recognised (%s)" % (key, pairs))
+                        continue
+                    bad = [p_ for p_ in pairs if p_[0] != p_[1]]
+                    ck.ob("E1.transfer-triple", key, not bad and len(pairs) == 3, "member <- converted source kinds %s%s" % (pairs, "" if len(pairs) == 3 else " (not all three matrices are converted)"), f.file, f.line)
             elif f.name == "clone":
                 cons = [n for n in walk(f.body) if n.get("k") in ("Construct", "TempObj") and strip_targs(n.get("ccls", "")) == "FEAT::LAFEM::Transfer" and len(n.get("a", [])) == 3]
                 if len(cons) != 1:
@@ -194,6 +225,9 @@ def check_lafem_transfer(ck, facts):
                 for i, a in enumerate(cons[0]["a"]):
                     got = [x["n"] for x in walk(a) if x.get("k") == "Member" and x.get("n") in kind_of_field]
                     pairs.append((pos_kind[i], kind_of_field[got[0]] if len(got) == 1 else "?"))
+                if any(p[1] == "?" for p in pairs):
+                    ck.incomplete("E1.transfer-triple", "%s: argument of the constructor call in clone() not recognised (%s)" % (key, pairs))
+                    continue
                 bad = [p for p in pairs if p[0] != p[1]]
                 ck.ob("E1.transfer-triple", key, not bad, "constructor slot <- cloned field kinds %s" % pairs, f.file, f.line)
 
@@ -260,7 +294,11 @@ def check_global_transfer(ck, facts):
             locs = [c for c in stmt_calls(f) if c.get("k") == "MCall" and strip_targs(c.get("ccls", "")) == "FEAT::LAFEM::Transfer"
                     and callee_name(c) in ("prol", "rest", "trunc", "prol_recv", "rest_send", "trunc_send", "prol_cancel")]
             if not locs:
-                ck.ob("E4.global-delegate", key, False, "no call of the local transfer operator", f.file, f.line)
+                eff = [c for c in stmt_calls(f) if not c.get("noreturn") and c.get("callee") != "FEAT::assertion" and not c.get("cconst")]
+                if eff:
+                    ck.incomplete("E4.global-delegate", "%s: no direct call of the local transfer operator; the work may be done by %s, which is not modelled" % (key, render(eff[0])[:60]))
+                else:
+                    ck.ob("E4.global-delegate", key, False, "the function neither calls the local transfer operator nor any other callee: the result vector is never written", f.file, f.line)
                 continue
             for c in locs:
                 where = "call %s" % render(c)[:90]
@@ -272,6 +310,9 @@ def check_global_transfer(ck, facts):
                 if len(a) != 2:
                     ok = False
                     detail.append(where + ": not (fine, coarse)")
+                    continue
+                if vec_id(a[0], rs) is None:
+                    ck.incomplete("E4.global-delegate", "%s: %s: fine operand %s not recognised" % (key, where, render(a[0])))
                     continue
                 if vec_id(a[0], rs) != fine:
                     ok = False
@@ -320,6 +361,10 @@ def check_global_transfer(ck, facts):
                     def is_sync(m, od=od):
                         return m.get("k") == "MCall" and callee_name(m) == "sync_0" and (m.get("obj") or {}).get("k") == "Ref" and m["obj"].get("d") == od
                     if not after_on_all_paths(f, c, is_sync):
+                        other = dfl.unmodelled_mutable_uses(f, rs, dfl.Path((("param", od),)), after=c, modelled=("sync_0", "local", "join", "split", "split_recv"))
+                        if other:
+                            ck.incomplete("E4.global-delegate", "%s: no sync_0 on the result after %s, but the result is handed to %s which is not modelled" % (key, where, render(other[0])[:60]))
+                            continue
                         ok = False
                         detail.append("%s: result vector (parameter %d) is not synchronised by sync_0 on every path afterwards" % (where, out_pos))
                 # no second local transfer application after this one
@@ -369,11 +414,16 @@ def clone_mode(call):
     return "Weak"
 
 
-class Ev:
-    __slots__ = ("kind", "path", "src", "node", "mode")
+KNOWN_MUTATORS = ("format", "scale_rows", "scale_cols", "scale", "shrink", "clear", "convert", "clone", "transpose", "operator=", "axpy", "copy",
+                  "permute", "add_double_mat_product", "set_line", "resize")
+KNOWN_WRITERS = re.compile(r"^FEAT::(Assembly::GridTransfer::(assemble_|prolongate_)|Assembly::SymbolicAssembler::assemble_|Control::Asm::VoxelAux::deslag_|Assembly::.*::assemble)")
 
-    def __init__(self, kind, path, node, src=None, mode=None):
-        self.kind, self.path, self.node, self.src, self.mode = kind, path, node, src, mode
+
+class Ev:
+    __slots__ = ("kind", "path", "src", "node", "mode", "definite")
+
+    def __init__(self, kind, path, node, src=None, mode=None, definite=True):
+        self.kind, self.path, self.node, self.src, self.mode, self.definite = kind, path, node, src, mode, definite
 
 
 def classify_rhs(rs, rhs):
@@ -395,6 +445,10 @@ def classify_rhs(rs, rhs):
             return ("transpose", rs.path(n.get("obj") or {"k": "This"}), None)
         if nm == "clone" and len(n.get("a", [])) <= 1:
             return ("clone", rs.path(n.get("obj") or {"k": "This"}), clone_mode(n))
+    if n is not None and n.get("k") == "Ref" and n.get("dk") == "local":
+        v = rs.var(n.get("d"))
+        if v is not None and not v.get("ref"):
+            return ("temp", rs.path(n), n.get("d"))       # a named temporary: its value is tracked by the typestate
     return ("opaque", None, render(rhs)[:80])
 
 
@@ -441,6 +495,10 @@ def function_events(fn):
                 for v in n.get("vars", []):
                     if v.get("ref"):
                         evs.append(Ev("rebind", None, n, src=v["d"]))
+                    elif v.get("init") is not None:
+                        cr = classify_rhs(rs, v["init"])
+                        if cr[0] in ("transpose", "clone"):
+                            evs.append(Ev("tempdef", Path((("local", v["d"]),), text=v["n"]), n, src=cr, mode=v["d"]))
                 continue
             if k == "Assign" and n.get("op") == "=":
                 evs.append(Ev("store", rs.path(n["lhs"]), n, src=classify_rhs(rs, n["rhs"])))
@@ -466,14 +524,15 @@ def function_events(fn):
                     elif nm in ("clone", "convert") and len(args) >= 1 and not rs.path(args[0]).opaque():
                         evs.append(Ev("store", rp, n, src=("clone", rs.path(args[0]), clone_mode(n) if nm == "clone" else "Deep")))
                     else:
-                        evs.append(Ev("mod", rp, n))
+                        evs.append(Ev("mod", rp, n, definite=nm in KNOWN_MUTATORS))
             for a, pname, ptype in dfl.call_args_with_params(n, fn):
                 if k in ("MCall", "OpCall") and a is recv:
                     continue
                 if ptype is not None and is_nonconst_ref(ptype):
                     ap = rs.path(a)
                     if not ap.opaque():
-                        evs.append(Ev("mod", ap, n))
+                        # a non-const reference parameter of an unmodelled callee may or may not be written
+                        evs.append(Ev("mod", ap, n, definite=bool(KNOWN_WRITERS.match(strip_targs(n.get("callee", "") or "")))))
         blocks[bid] = evs
     return rs, blocks
 
@@ -497,11 +556,9 @@ def check_rest_transpose(ck, fn, fkey, rule="E8.rest-is-transpose"):
     count = 0
     for (base, suffix), info in sorted(tracked.items(), key=lambda kv: kv[1]["line"] or 0):
         if "prol" not in info["text"]:
-            # a rest matrix is written but the prolongation of the same transfer is never touched here
+            # a rest matrix is written but the prolongation of the same transfer is never touched here: nothing can be decided locally
             txt = info["text"].get("rest")
-            ck.ob(rule, "%s/%s" % (fkey, txt), False,
-                  "the restriction matrix %s is written, but the prolongation matrix of the same transfer object is not assembled in this function: "
-                  "rest = transpose(prol) cannot be established" % txt, fn.file, info["line"])
+            ck.incomplete(rule, "%s/%s: the restriction matrix is written, but the prolongation matrix of the same transfer object is not assembled in this function" % (fkey, txt))
             count += 1
             continue
         problems = []
@@ -525,61 +582,109 @@ def check_rest_transpose(ck, fn, fkey, rule="E8.rest-is-transpose"):
                     return True
             return False
 
+        doubts = []
+
+        def prol_counterpart(p):
+            sk = split_kind(p)
+            return (sk[0], sk[2]) if sk is not None and sk[1] == "rest" else None
+
+        def rest_matches(rsrc, eqv):
+            return rsrc is not None and counterpart_in(rsrc, eqv)
+
         def step(bid, state):
-            st, eqv = state
+            st, eqv, rsrc, temps = state
             for ev in blocks.get(bid, []):
                 ln = ev.node.get("l")
                 if ev.kind == "rebind":
                     if ev.src in info["decls"]:
                         if st[0] == "stale":
-                            problems.append((ln, "the reference to the transfer matrices is re-bound (next iteration / scope end) while the restriction is stale: %s" % st[1]))
-                        st, eqv = ("init",), frozenset()
+                            (problems if st[2] else doubts).append((ln, "the reference to the transfer matrices is re-bound (next iteration / scope end) while the restriction is stale: %s" % st[1]))
+                        st, eqv, rsrc, temps = ("init",), frozenset(), None, frozenset()
                     continue
                 p = ev.path
+                if ev.kind == "tempdef":
+                    kind, src, mode = ev.src
+                    if kind == "transpose" and same(src, "prol"):
+                        temps = temps | {ev.mode}                  # the local holds transpose(P) of the current P
+                    elif kind == "clone" and mode != "Layout" and same(src, "prol"):
+                        eqv = eqv | {p}                            # the local is a value copy of P
+                    continue
                 if ev.kind == "store" and relk(p, "prol"):
                     kind, src, mode = ev.src
+                    temps = frozenset()
                     if kind == "clone" and mode == "Layout":
                         eqv = frozenset()
                     elif kind == "clone" and src is not None:
-                        st, eqv = ("stale", "prolongation assigned at line %s (%s)" % (ln, render(ev.node)[:70])), frozenset([src])
+                        eqv = frozenset([src])
+                        if rest_matches(rsrc, eqv):
+                            st = ("fresh",)
+                        else:
+                            st = ("stale", "prolongation assigned at line %s (%s)" % (ln, render(ev.node)[:70]), True)
+                    elif kind == "temp" and src in eqv:
+                        pass                                        # P := (moved) value copy of itself
                     else:
-                        st, eqv = ("stale", "prolongation assigned at line %s (%s)" % (ln, render(ev.node)[:70])), frozenset()
+                        st, eqv = ("stale", "prolongation assigned at line %s (%s)" % (ln, render(ev.node)[:70]), True), frozenset()
                     continue
                 if ev.kind == "mod" and relk(p, "prol"):
-                    st, eqv = ("stale", "prolongation modified at line %s by %s" % (ln, render(ev.node)[:70])), frozenset()
+                    if st[0] == "stale" and st[2]:
+                        pass
+                    else:
+                        st = ("stale", "prolongation %s at line %s by %s" % ("modified" if ev.definite else "possibly modified (non-const argument of a callee that is not modelled)", ln, render(ev.node)[:70]), ev.definite)
+                    eqv, temps = frozenset(), frozenset()
                     continue
                 if ev.kind == "store" and relk(p, "rest"):
                     kind, src, mode = ev.src
-                    if kind == "transpose" and (same(src, "prol") or src in eqv) and same(p, "rest"):
+                    if kind == "clone" and mode == "Layout":
+                        continue
+                    if not same(p, "rest"):
+                        doubts.append((ln, "store into %s, a part / container of the tracked restriction matrix" % p))
+                        continue
+                    rsrc = None
+                    if kind == "transpose" and (same(src, "prol") or src in eqv):
                         st = ("fresh",)
-                    elif kind == "clone" and mode != "Layout" and src is not None and counterpart_in(src, eqv) and same(p, "rest"):
+                    elif kind == "temp" and mode in temps:
                         st = ("fresh",)
-                    elif kind == "clone" and mode == "Layout":
-                        pass
+                    elif kind == "clone" and src is not None and prol_counterpart(src) is not None:
+                        # composition: rest block := clone of another transfer's rest; fresh iff the prol block is the clone of that transfer's prol
+                        rsrc = src
+                        st = ("fresh",) if rest_matches(rsrc, eqv) else ("stale", "restriction assigned a clone of %s at line %s while the prolongation is not (yet) the clone of the same transfer's prolongation" % (src, ln), True)
+                    elif kind == "clone" and src is not None and (same(src, "prol") or src in eqv):
+                        problems.append((ln, "the restriction matrix %s is assigned a clone of the prolongation matrix %s instead of its transpose" % (p, src)))
+                        st = ("stale", "restriction assigned a non-transpose at line %s" % ln, True)
+                    elif kind == "transpose" and src is not None and split_kind(src) is not None:
+                        problems.append((ln, "the restriction matrix %s is assigned the transpose of %s, which is not the stored prolongation matrix %s" % (p, src, info["text"]["prol"])))
+                        st = ("stale", "restriction assigned the transpose of another transfer matrix at line %s" % ln, True)
                     else:
-                        what = {"transpose": "the transpose of %s" % src, "clone": "a clone of %s" % src, "opaque": "%s" % mode}[kind]
-                        problems.append((ln, "the restriction matrix %s is assigned %s, which is not the transpose of the stored prolongation matrix %s%s" % (
-                            p, what, info["text"]["prol"], (" (nor of an object it was cloned from: %s)" % sorted(map(repr, eqv))) if eqv else "")))
-                        st = ("stale", "restriction assigned a non-transpose at line %s" % ln)
+                        what = {"transpose": "the transpose of %s" % src, "clone": "a clone of %s" % src, "temp": "the local %s" % src, "opaque": "%s" % mode}[kind]
+                        doubts.append((ln, "the restriction matrix %s is assigned %s; its relation to the stored prolongation %s is not understood" % (p, what, info["text"]["prol"])))
+                        st = ("stale", "restriction assigned a value of unknown origin at line %s" % ln, False)
                     continue
                 if ev.kind == "mod" and relk(p, "rest"):
                     if st[0] == "fresh":
-                        st = ("stale", "restriction modified at line %s by %s after the transposition" % (ln, render(ev.node)[:70]))
+                        st = ("stale", "restriction %s at line %s by %s after the transposition" % ("modified" if ev.definite else "possibly modified", ln, render(ev.node)[:70]), ev.definite)
                     continue
-                if ev.kind in ("mod", "store") and p is not None and eqv:
-                    hit = [q for q in eqv if q.related(p)]
-                    if hit:
-                        eqv = eqv - frozenset(hit)
-            return (st, eqv)
+                if ev.kind in ("mod", "store") and p is not None:
+                    if eqv:
+                        hit = [q for q in eqv if q.related(p)]
+                        if hit:
+                            eqv = eqv - frozenset(hit)
+                    if temps and p.steps and p.steps[0][0] == "local" and p.steps[0][1] in temps and not (ev.kind == "mod" and not ev.definite and False):
+                        temps = temps - {p.steps[0][1]}
+            return (st, eqv, rsrc, temps)
 
-        inn, out = dfl.propagate(fn, (("init",), frozenset()), step)
+        inn, out = dfl.propagate(fn, (("init",), frozenset(), None, frozenset()), step)
         for b in cfg.normal_exit_preds():
-            for (st, eqv), facts in out.get(b, ()):
+            for (st, eqv, rsrc, temps), facts in out.to_exit.get(b, ()):
                 if st[0] == "stale":
                     rets = [fn.by_id(e) for e in cfg.blocks[b]["el"]]
                     rl = [r.get("l") for r in rets if r is not None and r.get("k") == "Return"]
-                    problems.append((rl[0] if rl else fn.end, "a path reaches the exit%s with a restriction that is not the transpose of the current prolongation: %s" % (
+                    (problems if st[2] else doubts).append((rl[0] if rl else fn.end, "a path reaches the exit%s with a restriction that is not the transpose of the current prolongation: %s" % (
                         (" at line %s" % rl[0]) if rl else "", st[1])))
+        key = "%s/%s" % (fkey, info["text"]["prol"])
+        if doubts and not problems:
+            ck.incomplete(rule, "%s: %s" % (key, "; ".join(sorted({"line %s: %s" % d for d in doubts}))[:600]))
+            count += 1
+            continue
         # de-duplicate
         seen = set()
         uniq = []
@@ -587,7 +692,6 @@ def check_rest_transpose(ck, fn, fkey, rule="E8.rest-is-transpose"):
             if pr[1] not in seen:
                 seen.add(pr[1])
                 uniq.append(pr)
-        key = "%s/%s" % (fkey, info["text"]["prol"])
         ck.ob(rule, key, not uniq, "; ".join("line %s: %s" % pr for pr in uniq) or
               "on every path the stored restriction %s is (re)computed as transpose / parallel clone of %s after its last modification" % (info["text"].get("rest", "?"), info["text"]["prol"]),
               fn.file, (uniq[0][0] if uniq else info["line"]), sample={"prol": info["text"]["prol"], "rest": info["text"].get("rest")})
@@ -616,6 +720,23 @@ PRODUCERS = {
     "assemble_truncation": ("matrix", "vector"),
     "prolongate_vector": ("vector_f", "vector_w"),
 }
+
+
+def unwrap_num(rs, n):
+    """numeric literal value of an expression (through value casts / const locals), else None"""
+    n = rs.value(n)
+    while n is not None and n.get("k") in ("Construct", "TempObj", "Cast") and len(n.get("a", []) or ([n["e"]] if n.get("e") else [])) == 1:
+        n = rs.value((n.get("a") or [n.get("e")])[0])
+    if n is None:
+        return None
+    if n.get("k") in ("Int", "Float"):
+        try:
+            return float(n.get("text") or n.get("v"))
+        except ValueError:
+            return None
+    if n.get("k") in ("Construct", "TempObj") and not n.get("a"):
+        return 0.0
+    return None
 
 
 def is_one(rs, n):
@@ -647,6 +768,8 @@ def check_weights(ck, fn, fkey, rule="E7.weights-inverted-once"):
         if c.get("k") == "Call" and strip_targs(c.get("callee", "")).startswith("FEAT::Assembly::GridTransfer::") and callee_name(c) in PRODUCERS:
             pm, pw = PRODUCERS[callee_name(c)]
             m, w = dfl.arg_by_param(c, pm), dfl.arg_by_param(c, pw)
+            if (m is None or w is None) and len(c.get("a", [])) >= 2:
+                m, w = c["a"][0], c["a"][1]      # renamed parameters: (weighted object, weight vector) are the first two by position
             if m is None or w is None:
                 ck.incomplete(rule, "%s: call %s without (%s, %s) parameters" % (fkey, render(c)[:60], pm, pw))
                 continue
@@ -662,6 +785,8 @@ def check_weights(ck, fn, fkey, rule="E7.weights-inverted-once"):
         problems = []
         pids = {c["i"] for c, m, w in prods if m == M and w == W}
 
+        wdoubt = []
+
         def step(bid, st):
             for e in cfg.blocks[bid]["el"]:
                 n = fn.by_id(e)
@@ -672,6 +797,8 @@ def check_weights(ck, fn, fkey, rule="E7.weights-inverted-once"):
                     st = "raw"
                     continue
                 if st == "none":
+                    continue
+                if n.get("callee") in dfl.MOVE_FNS:
                     continue
                 nm = callee_name(n)
                 recv = dfl.receiver(n)
@@ -713,13 +840,29 @@ def check_weights(ck, fn, fkey, rule="E7.weights-inverted-once"):
                             nm, M, W, {"raw": "not inverted", "synced": "not inverted", "done": "already consumed"}.get(st, st))))
                     st = "done"
                     continue
+                # anything else that may write the weights or the weighted object: a callee / lambda that is not modelled
+                if st in ("raw", "synced", "inv"):
+                    for a, pn_, pt_ in dfl.call_args_with_params(n, fn):
+                        if a is recv:
+                            continue
+                        ap = rs.path(a)
+                        if pt_ is not None and is_nonconst_ref(pt_) and not ap.opaque() and (ap.related(W) or ap.related(M)) and nm not in ("sync_0", "join", "split", "split_recv", "join_send"):
+                            wdoubt.append((ln, "%s is handed to %s, which is not modelled and may invert / apply the weights" % (ap, render(n)[:60])))
+                    if rp is not None and rp.related(W) and not n.get("cconst") and nm not in ("format", "copy", "component_invert", "sync_0") and n.get("k") == "MCall":
+                        par_ = dfl.parents(fn).get(id(n))
+                        if par_ is not None and par_[0].get("k") in ("Block", "If", "For", "While"):
+                            wdoubt.append((ln, "weights modified by %s, which is not modelled" % render(n)[:60]))
             return st
 
         inn, out = dfl.propagate(fn, "none", step)
         for b in cfg.normal_exit_preds():
-            for st, facts in out.get(b, ()):
+            for st, facts in out.to_exit.get(b, ()):
                 if st in ("raw", "synced", "inv"):
                     problems.append((fn.end, "a path reaches the exit with weights %s assembled but %s never scaled by their inverse (state: %s)" % (W, M, st)))
+        if wdoubt:
+            ck.incomplete(rule, "%s/%s: %s" % (fkey, W, "; ".join(sorted({"line %s: %s" % d for d in wdoubt}))[:500]))
+            count += 1
+            continue
         uniq = []
         for pr in problems:
             if pr[1] not in [u[1] for u in uniq]:
@@ -755,6 +898,11 @@ class GT:
                 elif "coarse" in p["n"]:
                     self.pside[p["d"]] = "C"
         self._fc = {}
+        if sorted(self.pside.values()) != ["C", "F"]:
+            # renamed parameters: every GridTransfer routine takes (..., fine space, coarse space, cubature) in this order
+            sp = [p for p in fn.params if re.search(r"\bSpace::", fn.type(p["t"])) and "Cubature" not in fn.type(p["t"])]
+            if len(sp) == 2:
+                self.pside = {sp[0]["d"]: "F", sp[1]["d"]: "C"}
         self.filled = {}       # data local decl -> set of sides of the evaluators that fill it
         self.loopvar = {}      # decl -> (For node, bound expr)
         for n in fn.nodes():
@@ -763,8 +911,22 @@ class GT:
                 v = None
                 if ini is not None and ini.get("k") == "Decl" and len(ini.get("vars", [])) == 1:
                     v = ini["vars"][0]
-                if v is not None and c is not None and c.get("k") == "Bin" and c.get("op") == "<" and c["lhs"].get("k") == "Ref" and c["lhs"].get("d") == v["d"]:
+                if v is not None and c is not None and c.get("k") == "Bin" and c.get("op") == "<" and self.strip_cast(c["lhs"]).get("k") == "Ref" and self.strip_cast(c["lhs"]).get("d") == v["d"]:
                     self.loopvar[v["d"]] = (n, c["rhs"])
+            elif n.get("k") == "While":
+                # Index v(0); while(v < E) { ...; ++v; }
+                c = n.get("c")
+                if c is not None and c.get("k") == "Bin" and c.get("op") == "<":
+                    lv = self.strip_cast(c["lhs"])
+                    if lv.get("k") == "Ref" and lv.get("dk") == "local":
+                        incs = [x for x in walk(n.get("body")) if x.get("k") == "Un" and x.get("op") == "++" and x["e"].get("k") == "Ref" and x["e"].get("d") == lv["d"]]
+                        others = [x for x in fn.nodes() if (x.get("k") == "Assign" and x["lhs"].get("k") == "Ref" and x["lhs"].get("d") == lv["d"]) or
+                                  (x.get("k") == "Un" and x.get("op") in ("++", "--") and x["e"].get("k") == "Ref" and x["e"].get("d") == lv["d"] and x not in incs)]
+                        var = self.rs.var(lv["d"])
+                        ini = self.strip_cast(var.get("init")) if var is not None and var.get("init") is not None else None
+                        if len(incs) == 1 and not others and ini is not None and ini.get("k") == "Int" and str(ini.get("v")) == "0" \
+                                and not any(w.get("k") in ("Continue",) for w in walk(n.get("body"))):
+                            self.loopvar[lv["d"]] = (n, c["rhs"])
         self._vs = {}
         # evaluator fills: E(data, x)
         for _ in range(2):
@@ -774,6 +936,11 @@ class GT:
                     if a1.get("k") == "Ref" and a1.get("dk") == "local" and "EvalData" in fn.ntype(a1) + self.vtype(a1.get("d")):
                         self.filled.setdefault(a1["d"], set()).update(self.side(a0))
             self._vs = {}
+
+    def strip_cast(self, x):
+        while x is not None and (x.get("k") == "Cast" or (x.get("k") in ("Construct", "TempObj") and len(x.get("a", [])) == 1 and not x.get("ccls"))):
+            x = x.get("e") if x.get("k") == "Cast" else x["a"][0]
+        return x
 
     def vtype(self, d):
         v = self.rs.var(d)
@@ -836,8 +1003,9 @@ class GT:
             d = n["d"]
             if d in self.loopvar:
                 loop, bound = self.loopvar[d]
-                b = self.rs.value(bound)
-                if b.get("k") == "MCall":
+                b = self.strip_cast(self.rs.value(bound))
+                b = self.strip_cast(self.rs.value(b)) if b is not None else b
+                if b is not None and b.get("k") == "MCall":
                     nm = callee_name(b)
                     obj = b.get("obj")
                     if nm == "get_num_cells":
@@ -852,6 +1020,8 @@ class GT:
             v = self.rs.var(d)
             if v is not None and v.get("init") is not None and not v.get("ref") and d not in dfl.assigned_decls(fn):
                 return self.kind(v["init"], depth + 1)
+            if v is not None and v.get("init") is not None and not v.get("ref"):
+                return self.if_lookup_kind(n, v, depth)
             return None
         if k == "Cond":
             return self.cond_lookup_kind(n, depth)
@@ -859,6 +1029,58 @@ class GT:
             return self.map_kind(n, depth)
         if k == "MCall" and callee_name(n) == "calc_fcell":
             return self.calc_fcell_kind(n, depth)
+        return None
+
+    def if_lookup_kind(self, use, var, depth):
+        """T v = x; if(guard) v = P.map(x | v);   (no else, single assignment, before the use)  ==  guard ? P.map(x) : x"""
+        d = var["d"]
+        assigns = [x for x in self.fn.nodes() if x.get("k") == "Assign" and x["lhs"].get("k") == "Ref" and x["lhs"].get("d") == d]
+        incs = [x for x in self.fn.nodes() if x.get("k") == "Un" and x.get("op") in ("++", "--") and x["e"].get("k") == "Ref" and x["e"].get("d") == d]
+        if len(assigns) != 1 or incs or assigns[0].get("op") != "=":
+            return None
+        asg = assigns[0]
+        # the assignment is the only statement of the then-branch of an if without else
+        cur, ifn = asg, None
+        for _ in range(3):
+            pr = self.par.get(id(cur))
+            if pr is None:
+                break
+            pn, slot = pr
+            if pn.get("k") == "Block" and len(pn.get("s", [])) == 1:
+                cur = pn
+                continue
+            if pn.get("k") == "If" and slot == "then" and pn.get("else") is None:
+                ifn = pn
+            break
+        if ifn is None:
+            return None
+        cfg = self.fn.cfg
+        decl = self.rs.var_decl_stmt.get(d)
+        # declaration, if and use in this order in one statement list; the use is not inside the if
+        pb = self.par.get(id(ifn))
+        if pb is None or pb[0].get("k") != "Block" or decl is None or decl not in pb[0].get("s", []):
+            return None
+        stmts = pb[0]["s"]
+        if stmts.index(decl) > stmts.index(ifn):
+            return None
+        anc = use
+        top = None
+        while id(anc) in self.par:
+            anc, sl = self.par[id(anc)]
+            if anc is ifn:
+                return None
+            if anc in stmts:
+                top = anc
+                break
+        if top is None or stmts.index(top) < stmts.index(ifn):
+            return None
+        rhs = asg["rhs"]
+        if rhs.get("k") == "MCall" and callee_name(rhs) == "map" and len(rhs.get("a", [])) == 1:
+            arg = rhs["a"][0]
+            if arg.get("k") == "Ref" and arg.get("d") == d:
+                arg = var["init"]              # v = P.map(v): v still holds its initial value here
+            synth = {"k": "Cond", "c": ifn["c"], "then": dict(rhs, a=[arg]), "else": var["init"], "l": asg.get("l")}
+            return self.cond_lookup_kind(synth, depth)
         return None
 
     # ---- guarded permutation lookups -------------------------------------------------------------
@@ -972,6 +1194,8 @@ class GT:
         if pk is None or ak is None:
             return None
         which, s = pk
+        if s is None or ak[0] in ("loop?",):
+            return None
         # MeshPermutation: get_perm() maps the index of a cell of the permuted mesh to its index before permutation (the
         # 2-level ordering of the refinement algorithm), get_inv_perm() maps back (mesh_permutation.hpp; same convention
         # as SymbolicAssembler::assemble_graph_intermesh)
@@ -999,11 +1223,17 @@ class GT:
             ini = v.get("init") if v else None
             if ini is not None and is_call(ini):
                 fm, cm = dfl.arg_by_param(ini, "fine_mesh"), dfl.arg_by_param(ini, "coarse_mesh")
-                if fm is None or cm is None or self.side(fm) != {"F"} or self.side(cm) != {"C"}:
+                if fm is None or cm is None or not self.side(fm) or not self.side(cm):
+                    self.ck.incomplete("E2.child-cell-map", "%s: construction %s of the coarse-fine cell mapping not understood" % (self.fkey, render(ini)[:80]))
+                    return None
+                if self.side(fm) != {"F"} or self.side(cm) != {"C"}:
                     ok = False
                     why.append("CoarseFineCellMapping constructed from (fine_mesh=%s, coarse_mesh=%s)" % (render(fm), render(cm)))
         cc, ch = dfl.arg_by_param(n, "ccell"), dfl.arg_by_param(n, "child")
         kc, kh = self.kind(cc, depth + 1), self.kind(ch, depth + 1)
+        if kc is None or kh is None or kc[0] == "loop?" or kh[0] == "loop?" or cc is None or ch is None:
+            self.ck.incomplete("E2.child-cell-map", "%s: arguments of calc_fcell(%s, %s) not understood (%s, %s)" % (self.fkey, render(cc), render(ch), fmt_kind(kc), fmt_kind(kh)))
+            return None
         if kc != ("cell2", "C"):
             ok = False
             why.append("argument ccell=%s has kind %s, expected a coarse cell index in 2-level ordering" % (render(cc), fmt_kind(kc)))
@@ -1081,6 +1311,9 @@ def check_grid_transfer(ck, fn):
             at = fn.ntype(a)
             if "Evaluator" in at or "evaluator" in at.lower():
                 sa = g.side1(a)
+                if so is None or sa is None:
+                    ck.incomplete("E2.cell-index", "%s: fine/coarse side of %s or %s not understood" % (fkey, render(obj), render(a)))
+                    continue
                 ck.ob("E2.cell-index", "%s/%s.prepare(evaluator)" % (fkey, render(obj)), so is not None and so == sa,
                       "%s (side %s) prepared with %s (side %s)" % (render(obj), so, render(a), sa), fn.file, c.get("l"))
                 continue
@@ -1141,6 +1374,10 @@ def check_grid_transfer(ck, fn):
             if lm is not None:
                 rm, cm = dfl.arg_by_param(c, "row_map"), dfl.arg_by_param(c, "col_map")
                 rside, cside = dims.get((src["d"], "rows")), dims.get((src["d"], "columns"))
+                if rside is None or cside is None or g.side1(rm) is None or g.side1(cm) is None:
+                    ck.incomplete("E1.scatter-roles", "%s: dimensions of %s are not asserted against the spaces, or the side of the mappings %s / %s is not understood" % (
+                        fkey, src["n"], render(rm), render(cm)))
+                    continue
                 ok = rside is not None and cside is not None and g.side1(rm) == rside and g.side1(cm) == cside
                 detail = "matrix %s is asserted (rows: %s space, columns: %s space); scattered with row_map=%s (%s), col_map=%s (%s)" % (
                     src["n"], rside, cside, render(rm), g.side1(rm), render(cm), g.side1(cm))
@@ -1153,13 +1390,17 @@ def check_grid_transfer(ck, fn):
             else:
                 lv, mp = dfl.arg_by_param(c, "loc_vec"), dfl.arg_by_param(c, "mapping")
                 vside = dims.get((src["d"], "size"))
+                if vside is None or g.side1(mp) is None:
+                    ck.incomplete("E1.scatter-roles", "%s: size of %s is not asserted against a space, or the side of the mapping %s is not understood" % (fkey, src["n"], render(mp)))
+                    weight_scatter.append((c, lv, src, g.side1(mp)))
+                    continue
                 ok = vside is not None and g.side1(mp) == vside
                 ck.ob("E1.scatter-roles", "%s/%s(vector %s)" % (fkey, "gather" if "Gather" in c["callee"] else "scatter", src["n"]), ok,
                       "vector %s is asserted to have the size of the %s space; accessed with mapping=%s (%s)" % (src["n"], vside, render(mp), g.side1(mp)), fn.file, c.get("l"))
                 al = dfl.arg_by_param(c, "alpha")
                 weight_scatter.append((c, lv, src, g.side1(mp)))
     # ---- local projection: M^-1 * N -------------------------------------------------------------
-    wparam = {"assemble_prolongation": "vector", "assemble_truncation": "vector", "prolongate_vector": "vector_w"}[name]
+    wparam = fn.params[1]["n"]      # (weighted object, weight vector, ...) by position
     inv = [c for c in calls if c.get("callee") == "FEAT::Math::invert_matrix"]
     mults = [c for c in calls if c.get("k") == "MCall" and callee_name(c) == "set_mat_mat_mult"]
     key = fkey + "/local-projection"
@@ -1176,16 +1417,21 @@ def check_grid_transfer(ck, fn):
     for mu in mults:
         a, b = dfl.arg_by_param(mu, "a"), dfl.arg_by_param(mu, "b")
         res = mu.get("obj")
-        if not (a is not None and a.get("k") == "Ref" and a.get("d") == mass_d):
+        if mass_d is None or a is None or a.get("k") != "Ref" or a.get("dk") != "local" or b is None or b.get("k") != "Ref":
+            ck.incomplete("E6.local-mass-inverse", "%s: operands of the local product %s / the array handed to invert_matrix (%s) are not plain local matrices" % (fkey, render(mu)[:60], render(a_arr)[:40]))
+            return
+        if a.get("d") != mass_d:
             problems.append((mu.get("l"), "left factor of the local product is %s, not the inverted mass matrix %s (X = M^-1 * N)" % (render(a), mroot[0]["n"] if mroot else "?")))
         if not cfg.stmt_dominates(iv["i"], mu["i"]):
-            problems.append((mu.get("l"), "the mass matrix is not inverted on every path before the product"))
+            ck.incomplete("E6.local-mass-inverse", "%s: invert_matrix does not dominate the product (conditional inversion not modelled)" % fkey)
+            return
         # which scatter consumes the product
         rs_ = cs_ = None
         if name != "prolongate_vector":
             used = [ms for ms in mat_scatter if ms[1].get("k") == "Ref" and res is not None and ms[1].get("d") == res.get("d")]
             if len(used) != 1:
-                problems.append((mu.get("l"), "the product %s = M^-1*N is not the local matrix that is scattered (%s)" % (render(res), ", ".join(render(ms[1]) for ms in mat_scatter))))
+                ck.incomplete("E6.local-mass-inverse", "%s: the product %s = M^-1*N is not directly the local matrix that is scattered (%s): shape not recognised" % (fkey, render(res), ", ".join(render(ms[1]) for ms in mat_scatter)))
+                return
             else:
                 rs_, cs_ = used[0][2], used[0][3]
         else:
@@ -1204,7 +1450,7 @@ def check_grid_transfer(ck, fn):
                                        (res.get("d") if res is not None else None, (("ldof", rs_), ("ldof", cs_)), "local projection matrix X")):
                     accs = locmat.get(d, [])
                     if not accs:
-                        problems.append((mu.get("l"), "%s is never used entry-wise" % label))
+                        ck.incomplete("E6.local-mass-inverse", "%s: %s is never used entry-wise (computed by a construct that is not modelled)" % (fkey, label))
                     for kinds, node in accs:
                         if any(kk is None or kk[0] == "loop?" for kk in kinds):
                             ck.incomplete("E6.local-mass-inverse", "%s: index of %s not understood" % (fkey, render(node)))
@@ -1216,7 +1462,7 @@ def check_grid_transfer(ck, fn):
             for d, want, label in ((mass_d, (("ldof", rs_), ("ldof", rs_)), "mass matrix"), (b.get("d") if b is not None and b.get("k") == "Ref" else None, (("ldof", rs_), ("ldof", cs_)), "inter-level matrix")):
                 accs = locmat.get(d, [])
                 if not accs:
-                    problems.append((mu.get("l"), "%s is never assembled entry-wise" % label))
+                    ck.incomplete("E6.local-mass-inverse", "%s: %s is never assembled entry-wise (assembled by a construct that is not modelled)" % (fkey, label))
                 for kinds, node in accs:
                     if any(kk is None or kk[0] == "loop?" for kk in kinds):
                         ck.incomplete("E6.local-mass-inverse", "%s: index of %s not understood" % (fkey, render(node)))
@@ -1225,22 +1471,38 @@ def check_grid_transfer(ck, fn):
                         problems.append((node.get("l"), "%s entry %s is indexed (%s), expected (%s)" % (label, render(node), ", ".join(map(fmt_kind, kinds)), ", ".join(map(fmt_kind, want)))))
             nv = rs.value(n_arg)
             n_side = g.side1(nv.get("obj")) if nv.get("k") == "MCall" and callee_name(nv) == "get_num_local_dofs" else None
-            if n_side != rs_:
+            if n_side is None:
+                ck.incomplete("E6.local-mass-inverse", "%s: dimension argument %s of invert_matrix not understood" % (fkey, render(n_arg)))
+            elif n_side != rs_:
                 problems.append((iv.get("l"), "invert_matrix is told the dimension %s, expected the number of local dofs of the %s space" % (render(n_arg), rs_)))
     # the format of the mass matrix precedes its assembly in the same loop as the inversion
     fmts = [c for c in calls if c.get("k") == "MCall" and callee_name(c) == "format" and (c.get("obj") or {}).get("d") == mass_d]
     il = innermost_loop(par, iv)
     if not any(innermost_loop(par, f) is il and cfg.stmt_dominates(f["i"], iv["i"]) for f in fmts):
-        problems.append((iv.get("l"), "the mass matrix is not re-formatted in the loop in which it is inverted (entries of the previous cell would be accumulated into an inverse)"))
+        acc_nodes = [node for kinds, node in locmat.get(mass_d, [])]
+        other = [w for w in local_writes(fn, mass_d, skip=[iv] + fmts) if not any(x in acc_nodes for x in walk(w)) and innermost_loop(par, w) is il]
+        mv = rs.var(mass_d)
+        decl_in_loop = mv is not None and rs.var_decl_stmt.get(mass_d) is not None and innermost_loop(par, rs.var_decl_stmt[mass_d]) is il and il is not None
+        if other or decl_in_loop:
+            ck.incomplete("E6.local-mass-inverse", "%s: the mass matrix is not format()ted in the inversion loop, but it is (re)initialised there by %s, which is not modelled" % (
+                fkey, render(other[0])[:60] if other else "its declaration"))
+        else:
+            problems.append((iv.get("l"), "the mass matrix is not re-formatted in the loop in which it is inverted (entries of the previous cell would be accumulated into an inverse)"))
     ck.ob("E6.local-mass-inverse", key, not problems, "; ".join("line %s: %s" % p for p in problems) or
           "X = set_mat_mat_mult(a = inverted local mass matrix (row space x row space), b = inter-level matrix (row space x column space)); X is what is scattered",
           fn.file, problems[0][0] if problems else iv.get("l"))
     # ---- weights: one increment of 1 per local projection ----------------------------------------
-    wparam = {"assemble_prolongation": "vector", "assemble_truncation": "vector", "prolongate_vector": "vector_w"}[name]
+    wparam = fn.params[1]["n"]      # (weighted object, weight vector, ...) by position
     ws = [w for w in weight_scatter if w[2]["n"] == wparam]
     wp = []
     if len(ws) != 1:
-        ck.ob("E7.weight-per-projection", fkey + "/weights", False, "%d scatter operations into the weight vector parameter '%s' (expected exactly one)" % (len(ws), wparam), fn.file, fn.line)
+        wd = fn.params[1]["d"]
+        used = [x for x in fn.nodes() if x.get("k") == "Ref" and x.get("d") == wd]
+        asserts_only = all(any(p_[0].get("callee") == "FEAT::assertion" for p_ in dfl.enclosing_stmt_chain(par, x)) for x in used)
+        if len(ws) == 0 and (not used or asserts_only):
+            ck.ob("E7.weight-per-projection", fkey + "/weights", False, "the weight vector parameter '%s' is never written: no multiplicities are counted" % wparam, fn.file, fn.line)
+        else:
+            ck.incomplete("E7.weight-per-projection", "%s: %d scatter operations into the weight vector parameter '%s'; the weights are handled by a construct that is not modelled" % (fkey, len(ws), wparam))
     else:
         c, lv, src, sd = ws[0]
         if innermost_loop(par, c) is not il:
@@ -1253,15 +1515,56 @@ def check_grid_transfer(ck, fn):
         for x in writers:
             if last is None or cfg.stmt_dominates(last["i"], x["i"]):
                 last = x
-        if last is None or callee_name(last) != "format" or not (last.get("a") and is_one(rs, last["a"][0])) or innermost_loop(par, last) is not innermost_loop(par, c):
-            wp.append("the local weight vector %s is not format(1)'ed immediately before it is scattered (last writer: %s)" % (render(lv), render(last) if last else "none"))
+        wdoubt = None
+        otherw = [w for w in local_writes(fn, lvd, skip=writers + [c])] if lvd is not None else []
+        if lvd is None:
+            wdoubt = "the local weight vector %s is not a plain local" % render(lv)
+        elif last is not None and callee_name(last) == "format" and innermost_loop(par, last) is innermost_loop(par, c) and not otherw:
+            if not (last.get("a") and is_one(rs, last["a"][0])):
+                v_ = rs.value(last["a"][0]) if last.get("a") else None
+                if v_ is None or unwrap_num(rs, v_) is not None:
+                    wp.append("the local weight vector %s is formatted to %s instead of 1 before it is scattered" % (render(lv), render(last["a"][0]) if last.get("a") else "0"))
+                else:
+                    wdoubt = "value %s of the local weight vector not understood" % render(last["a"][0])
+        elif last is None and not otherw:
+            wp.append("the local weight vector %s is never set before it is scattered" % render(lv))
+        else:
+            wdoubt = "the local weight vector %s is set by %s, which is not modelled" % (render(lv), render((otherw or [last])[0])[:60])
         al = dfl.arg_by_param(c, "alpha")
         if al is not None and not is_one(rs, al):
-            wp.append("weight scatter uses alpha=%s" % render(al))
+            if unwrap_num(rs, al) is not None:
+                wp.append("weight scatter uses alpha=%s" % render(al))
+            else:
+                wdoubt = "scaling %s of the weight scatter not understood" % render(al)
+        if wdoubt and not wp:
+            ck.incomplete("E7.weight-per-projection", "%s: %s" % (fkey, wdoubt))
+            check_refine_points(ck, fn, g, fkey, calls)
+            return
         ck.ob("E7.weight-per-projection", fkey + "/weights", not wp, "; ".join(wp) or "one scatter of an all-ones local vector per inverted local mass matrix, same loop, mapping of the row space",
               fn.file, c.get("l"))
     # ---- refined cubature point of the coarse evaluation ----------------------------------------
     check_refine_points(ck, fn, g, fkey, calls)
+
+
+def local_writes(fn, d, skip=()):
+    """statements that may write the local object d other than the calls in `skip`: assignments to it / its elements, non-const member calls,
+    passing it to a non-const reference parameter"""
+    out = []
+    for n in fn.nodes():
+        if n in skip:
+            continue
+        if n.get("k") == "Assign" and any(x.get("k") == "Ref" and x.get("d") == d for x in walk(n["lhs"])):
+            out.append(n)
+        elif is_call(n) and n.get("callee") not in dfl.MOVE_FNS:
+            recv = dfl.receiver(n)
+            if recv is not None and recv.get("k") == "Ref" and recv.get("d") == d and not n.get("cconst") and n.get("k") == "MCall":
+                out.append(n)
+            else:
+                for a, pn_, pt_ in dfl.call_args_with_params(n, fn):
+                    if a is not recv and pt_ is not None and is_nonconst_ref(pt_) and any(x.get("k") == "Ref" and x.get("d") == d for x in walk(a)):
+                        out.append(n)
+                        break
+    return out
 
 
 def lhs_name(par, n):
@@ -1300,30 +1603,50 @@ def check_refine_points(ck, fn, g, fkey, calls):
             continue
         base = refined_from[rule_d]
         partner = [e for e in fine if e[2] == base and dfl.innermost_loop_same(g.par, e[0], c)]
-        ok = False
         detail = "coarse evaluation at %s.get_point(%s)" % (rn, render(rs.value(idx)))
-        if partner:
-            kf = partner[0][3]
-            e = rs.value(idx)
-            # normal form: child * N + k  (any order of the commutative operands)
-            def flat(x, op):
-                x = rs.value(x)
-                while x.get("k") in ("Cast", "Construct", "TempObj") and (x.get("e") is not None or len(x.get("a", [])) == 1):
-                    x = rs.value(x.get("e") or x["a"][0])
-                if x.get("k") == "Bin" and x.get("op") == op:
-                    return flat(x["lhs"], op) + flat(x["rhs"], op)
-                return [x]
-            terms = flat(e, "+")
-            if len(terms) == 2:
-                for t1, t2 in (terms, terms[::-1]):
-                    fs = flat(t1, "*")
-                    if len(fs) == 2 and g.kind(t2) == ("cub", base) and t2.get("k") == "Ref" and kf.get("k") == "Ref" and t2.get("d") == kf.get("d"):
-                        for f1, f2 in (fs, fs[::-1]):
-                            if g.kind(f1) == ("child",) and f2.get("k") == "MCall" and callee_name(f2) == "get_num_points" and (f2.get("obj") or {}).get("d") == base:
-                                ok = True
-            detail += "; the fine evaluation uses point %s of the base rule; expected index child * base.get_num_points() + %s" % (render(kf), render(kf))
-        else:
-            detail += "; no fine evaluation at a point of the rule it was refined from in the same loop"
+        if not partner:
+            ck.incomplete("E2.refined-point", "%s: %s, but no fine evaluation at a point of the rule it was refined from in the same loop" % (fkey, detail))
+            continue
+        kf = partner[0][3]
+
+        def flat(x, op):
+            x = rs.value(x)
+            while x.get("k") in ("Cast", "Construct", "TempObj") and (x.get("e") is not None or len(x.get("a", [])) == 1):
+                x = rs.value(x.get("e") or x["a"][0])
+            if x.get("k") == "Bin" and x.get("op") == op:
+                return flat(x["lhs"], op) + flat(x["rhs"], op)
+            return [x]
+
+        def atom(x):
+            """'child' | 'k' (the fine point index) | 'n' (points of the base rule) | ('other', text) for understood atoms, None otherwise"""
+            if x.get("k") == "Ref":
+                if g.kind(x) == ("child",):
+                    return "child"
+                if kf.get("k") == "Ref" and x.get("d") == kf.get("d"):
+                    return "k"
+                kd = g.kind(x)
+                if kd is not None and kd[0] in ("cub", "cellP", "cell2", "ldof"):
+                    return ("other", x.get("n"))
+                return None
+            if x.get("k") == "MCall" and callee_name(x) == "get_num_points" and (x.get("obj") or {}).get("k") == "Ref":
+                return "n" if x["obj"].get("d") == base else ("other", render(x))
+            if x.get("k") == "MCall" and callee_name(x) == "get_num_children":
+                return ("other", "num_children")
+            if x.get("k") == "Int":
+                return ("other", x.get("v"))
+            return None
+        poly = []
+        understood = True
+        for t in flat(idx, "+"):
+            fs = [atom(f) for f in flat(t, "*")]
+            if any(f is None for f in fs):
+                understood = False
+            poly.append(tuple(sorted(map(str, fs))))
+        if not understood or kf.get("k") != "Ref":
+            ck.incomplete("E2.refined-point", "%s: %s: index expression not understood" % (fkey, detail))
+            continue
+        ok = sorted(poly) == sorted([("child", "n"), ("k",)])
+        detail += "; the fine evaluation uses point %s of the base rule; expected index child * base.get_num_points() + %s" % (render(kf), render(kf))
         ck.ob("E2.refined-point", key, ok, detail, fn.file, c.get("l"))
 
 
@@ -1361,8 +1684,8 @@ def declare_rules(ck):
     ck.rule("E1.transfer-apply", "LAFEM::Transfer::{prol,rest,trunc} perform exactly one 2-operand apply of the member matrix of the same kind with "
             "r = the non-const (result) parameter and x = the const (input) parameter, positions (fine, coarse), on every path; "
             "wrong for every non-symmetric transfer (rest applying mat_prol maps fine vectors with a fine x coarse matrix)", 6)
-    ck.rule("E1.transfer-triple", "constructors, move-assignment and clone of LAFEM::Transfer keep (prol, rest, trunc) slot <-> field kind; "
-            "a clone with swapped slots restricts with the prolongation matrix", 10)
+    ck.rule("E1.transfer-triple", "constructors, move-assignment, clone and convert of LAFEM::Transfer keep (prol, rest, trunc) slot <-> field kind; "
+            "convert() converts member X from the source's X; a clone / converted transfer with swapped slots restricts with the prolongation matrix", 11)
     ck.rule("E4.global-accessors", "Global::Transfer::get_mat_X forwards to the local transfer's get_mat_X (method parity)", 12)
     ck.rule("E4.global-delegate", "Global::Transfer::{prol,prol_recv,rest,rest_send,trunc,trunc_send}: every path applies exactly the local operator of the same "
             "kind on (fine.local(), coarse buffer); a temporary coarse buffer is filled by muxer split/split_recv before a prolongation and handed to muxer "
